@@ -239,6 +239,31 @@ func runC01Slots(c *Ctx) {
 				default:
 					c.undecided(P, "eof", key, p.instrPos(eof.Instr), msg)
 				}
+			} else if phi, isPhi := unwrap(eof.Val).(*ssa.Phi); isPhi {
+				// the word is a variable set to 0/1 on separate edges and encoded once
+				for i, e := range phi.Edges {
+					k, isC := constInt(unwrap(e))
+					if !isC || (k != 0 && k != 1) || i >= len(phi.Block().Preds) {
+						c.undecided(P, "eof", "slot=READ.eof", p.instrPos(eof.Instr), "eof variable takes a value that is not the constant 0 or 1")
+						continue
+					}
+					key := fmt.Sprintf("slot=READ.eof=%d", k)
+					if seenKeys[key] {
+						continue
+					}
+					seenKeys[key] = true
+					pred := phi.Block().Preds[i]
+					facts := append(append([]condFact{}, p.facts(pred)...), edgeFacts(pred, phi.Block())...)
+					verdict, msg := checkEOFFacts(p, facts, rs.Toks[2], k == 1)
+					switch verdict {
+					case Discharged:
+						c.ok(P, "eof", key, p.instrPos(eof.Instr), msg)
+					case Violated:
+						c.bad(P, "eof", key, p.instrPos(eof.Instr), msg)
+					default:
+						c.undecided(P, "eof", key, p.instrPos(eof.Instr), msg)
+					}
+				}
 			} else {
 				c.undecided(P, "eof", "slot=READ.eof", p.instrPos(eof.Instr), "eof word is not written as constant 0/1 on separate edges")
 			}
@@ -287,9 +312,14 @@ func runC01Slots(c *Ctx) {
 // checkEOFEdge: the block writing the eof constant is controlled by a fact
 // equivalent to (offset+len(data) >= attrs.Size) for eof=1, or its negation for eof=0.
 func checkEOFEdge(p *Prog, fn *ssa.Function, eof tok, fattr tok, wantTrue bool) (string, string) {
-	b := eof.Instr.Block()
+	return checkEOFFacts(p, p.facts(eof.Instr.Block()), fattr, wantTrue)
+}
+
+// checkEOFFacts: do the facts that hold where eof gets the value wantTrue say exactly
+// "offset+len(data) has (not) reached the size"?
+func checkEOFFacts(p *Prog, facts []condFact, fattr tok, wantTrue bool) (string, string) {
 	fl := newFlow(p)
-	for _, f := range p.facts(b) {
+	for _, f := range facts {
 		op, lhs, rhs, ok := normCmp(f)
 		if !ok || (op != ">=" && op != ">") {
 			continue
